@@ -282,11 +282,14 @@ def _stub_propagate(trace):
 
 
 def _grid_seq(tier, rng):
-    """6 maneuver patterns x target date before / between / at / after the maneuver dates x 3 seeded states"""
+    """6 maneuver patterns x target date before / between / at / after the maneuver dates x 3 seeded states; the first maneuver after the epoch or before it (an impulse
+    already in the past, a burn under way at the epoch)"""
     for pat in range(6):
         for T in (-50.0, 100.0, 150.0, 400.0, 1000.0, 5000.0):
             for k in range(3 if tier == "quick" else 12):
-                d = {"pattern": pat, "n": 1.1e-3, "T": T, "d0": 100.0, "d1": 400.0 + 50 * k, "dur0": 250.0, "dur1": 300.0, "pos0": (k + pat) % 3, "pos1": (k + 2 * pat + 1) % 3}
+                # (first maneuver after the epoch, or -- every third case -- before it: 300 s before for an impulse; a burn started 100 s before and still under way)
+                d0_ = 100.0 if (k + pat) % 3 else (-300.0 if pat in (1, 3, 4) else -100.0)
+                d = {"pattern": pat, "n": 1.1e-3, "T": T, "d0": d0_, "d1": 400.0 + 50 * k, "dur0": 250.0, "dur1": 300.0, "pos0": (k + pat) % 3, "pos1": (k + 2 * pat + 1) % 3}
                 for i in range(6):
                     d[f"x{i}"] = rng.uniform(-100, 100) * (1 if i < 3 else 0.01)
                 for i in range(3):
@@ -348,18 +351,21 @@ def _(c):
     # specification (from the property text), over the same transition function
     t, x = 0, list(x0)
     done = False
+    # (from the property: a maneuver takes effect exactly once, at its date; the state handed over IS the state at its epoch, so a maneuver dated before the epoch -- the
+    # list a propagated state carries along still names it -- has already had its effect and is not applied again; of a burn under way at the epoch the remainder is applied)
     for m in spec:
         if m[0] == "I":
             _, d, dv = m
-            if T >= d:
+            if T >= d and d >= 0:
                 x = P(t, d, x, [0, 0, 0])
                 x = x[:3] + [x[3 + i] + dv[i] for i in range(3)]
                 t = d
         else:
             _, d, dur, acc = m
-            if T >= d:
-                x = P(t, d, x, [0, 0, 0])
-                t = d
+            if T >= d and d + dur > 0:
+                if d > t:
+                    x = P(t, d, x, [0, 0, 0])
+                    t = d
                 if T < d + dur:
                     x = P(t, T, x, list(acc))
                     t = T
